@@ -7,7 +7,8 @@
 // Script lines:
 //
 //	{"a":"reset","bid":n[,"next":id]}   next: move icmpTable.id there first (replays, wrap-around)
-//	{"a":"start","p":"p1","fam":"v4","fail":""|"addr"|"write","burst":0|1}
+//	{"a":"start","p":"p1","fam":"v4","fail":""|"addr"|"write","burst":0|1,"inline":""|kind}   inline: hand a message of that kind
+//	                                     (own identifier) to Parse from inside the connection's WriteTo of this ping
 //	{"a":"reply","tgt":"p1"|"noproc","off":k,"kind":"echoReply4|echoReply6|echoRequest|malformed","sub":"..."}
 //	{"a":"timeout","p":"p1"}     wait until p's own timer has expired and p returned
 //	{"a":"ret","p":"p1"}         wait until p returned
@@ -66,14 +67,15 @@ type ping struct {
 	timeout time.Duration
 	start   time.Time // read immediately before the call (zero until then)
 	done    chan struct{}
-	id      int // identifier seen on the wire (or leaked), -1 unknown
+	id      int // identifier seen on the wire (or leaked), -1 unknown (guarded by driver.mu)
 	ret     bool
+	inline  string // kind of the message handed to Parse from inside the connection's WriteTo ("" = none)
 }
 
 type driver struct {
 	u    *vh.Universe
 	s    *packet.Session
-	conn *vh.RecConn
+	conn *vh.HookConn
 	rng  *rand.Rand
 	slot time.Duration
 
@@ -172,7 +174,9 @@ func (d *driver) launch(p *ping, gate chan struct{}) {
 			for _, x := range packet.VerifPingWaiterIDs() {
 				if !before[x] {
 					rec["leaked"] = int(x)
+					d.mu.Lock()
 					p.id = int(x)
+					d.mu.Unlock()
 				}
 			}
 		}
@@ -189,14 +193,11 @@ func (d *driver) capture(want []*ping) {
 				continue
 			}
 			for _, p := range d.pings {
-				if p.id >= 0 || p.fail == "addr" {
+				if d.idOf(p) >= 0 || p.fail == "addr" {
 					continue
 				}
 				if d.dst(p, fam).IP == dip && fam == p.fam && ((fam == "v4" && typ == 8) || (fam == "v6" && typ == 128)) {
-					p.id = id
-					d.mu.Lock()
-					d.log(map[string]interface{}{"a": "sent", "p": p.name, "id": id})
-					d.mu.Unlock()
+					d.noteSent(p, id)
 				}
 			}
 		}
@@ -205,7 +206,7 @@ func (d *driver) capture(want []*ping) {
 			d.mu.Lock()
 			r := p.ret
 			d.mu.Unlock()
-			if p.id < 0 && !r && p.fail == "" {
+			if d.idOf(p) < 0 && !r && p.fail == "" {
 				missing = true
 			}
 		}
@@ -214,6 +215,46 @@ func (d *driver) capture(want []*ping) {
 		}
 		time.Sleep(100 * time.Microsecond)
 	}
+}
+
+func (d *driver) idOf(p *ping) int {
+	d.mu.Lock()
+	defer d.mu.Unlock()
+	return p.id
+}
+
+// noteSent records the identifier read back from the wire (once).
+func (d *driver) noteSent(p *ping, id int) {
+	d.mu.Lock()
+	defer d.mu.Unlock()
+	if p.id < 0 {
+		p.id = id
+		d.log(map[string]interface{}{"a": "sent", "p": p.name, "id": id})
+	}
+}
+
+// onWrite runs inside the connection's WriteTo, i.e. inside the send function of the ping that wrote the
+// frame: a ping started with "inline" gets its message handed to Parse before its send returns.
+func (d *driver) onWrite(frame []byte) {
+	fam, dip, typ, id, ok := decodeEcho(frame)
+	if !ok || !((fam == "v4" && typ == 8) || (fam == "v6" && typ == 128)) {
+		return
+	}
+	d.mu.Lock()
+	var hit *ping
+	for _, p := range d.pings {
+		if p.inline != "" && p.fam == fam && d.dst(p, fam).IP == dip {
+			hit = p
+		}
+	}
+	d.mu.Unlock()
+	if hit == nil {
+		return
+	}
+	d.noteSent(hit, id)
+	kind := hit.inline
+	hit.inline = ""
+	d.inject(kind, "", uint16(id), hit, true)
 }
 
 // decodeEcho is an independent decoder of Ethernet/IP/ICMP echo messages.
@@ -400,7 +441,11 @@ func (d *driver) behaviour(bid int, want int, evs []action) bool {
 				break
 			}
 			t := time.Now()
-			d.s.Ping6(packet.Addr{MAC: vh.OwnMAC, IP: vh.HostLLA}, packet.Addr{MAC: vh.RouterMAC, IP: d.u.Cfg.RouterIP}, 20*time.Millisecond)
+			if i%2 == 0 {
+				d.s.Ping6(packet.Addr{MAC: vh.OwnMAC, IP: vh.HostLLA}, packet.Addr{MAC: vh.RouterMAC, IP: d.u.Cfg.RouterIP}, 20*time.Millisecond)
+			} else { // the other entry point as well: should they count separately, both counters stay level
+				d.s.Ping(packet.Addr{MAC: vh.RouterMAC, IP: vh.HostLLA}, 20*time.Millisecond)
+			}
 			if time.Since(t) > 15*time.Millisecond {
 				break // this tree does not fail fast on a bad address: leave the counter where it is
 			}
@@ -458,7 +503,7 @@ func (d *driver) behaviour(bid int, want int, evs []action) bool {
 			for _, g := range group {
 				name := g.s("p")
 				k, _ := strconv.Atoi(name[1:])
-				p := &ping{name: name, k: k, fam: g.s("fam"), fail: g.s("fail"), done: make(chan struct{}), id: -1}
+				p := &ping{name: name, k: k, fam: g.s("fam"), fail: g.s("fail"), done: make(chan struct{}), id: -1, inline: g.s("inline")}
 				sl, ok := d.slots[name]
 				if !ok {
 					sl = d.nslots + 2
@@ -470,7 +515,7 @@ func (d *driver) behaviour(bid int, want int, evs []action) bool {
 				p.timeout = p.timeout.Truncate(time.Millisecond)
 				d.mu.Lock()
 				d.pings[name] = p
-				d.log(map[string]interface{}{"a": "start", "p": name, "fam": p.fam, "to": int(p.timeout / time.Millisecond), "fail": p.fail, "burst": len(group)})
+				d.log(map[string]interface{}{"a": "start", "p": name, "fam": p.fam, "to": int(p.timeout / time.Millisecond), "fail": p.fail, "burst": len(group), "inline": p.inline})
 				d.mu.Unlock()
 				if p.fail == "write" {
 					d.conn.FailN = 1
@@ -493,10 +538,10 @@ func (d *driver) behaviour(bid int, want int, evs []action) bool {
 			var from *ping
 			if t := e.s("tgt"); t != "" && t != "noproc" {
 				p := d.pings[t]
-				if p == nil || p.id < 0 {
+				if p == nil || d.idOf(p) < 0 {
 					continue // identifier never observed: nothing to aim at
 				}
-				id, from = uint16(p.id), p
+				id, from = uint16(d.idOf(p)), p
 			} else {
 				_, next := packet.VerifPingWaiters()
 				id = next + uint16(e.i("off"))
@@ -557,12 +602,15 @@ func main() {
 	d := &driver{rng: rand.New(rand.NewSource(seed)), slot: time.Duration(*slot) * time.Millisecond, out: bufio.NewWriterSize(of, 1<<20)}
 	d.enc = json.NewEncoder(d.out)
 	d.u = &vh.Universe{Cfg: vh.Configs[0]}
-	s, conn, err := vh.NewSession(d.u, 30, 60, 120)
+	conn := vh.NewHookConn()
+	s, err := packet.Config{Conn: conn, NICInfo: d.u.NICInfo(), ProbeDeadline: 30 * vh.Unit, OfflineDeadline: 60 * vh.Unit,
+		PurgeDeadline: 120 * vh.Unit}.NewSession("")
 	if err != nil {
 		fmt.Fprintln(os.Stderr, err)
 		os.Exit(2)
 	}
 	d.s, d.conn = s, conn
+	conn.OnWrite = d.onWrite
 	sc := bufio.NewScanner(in)
 	sc.Buffer(make([]byte, 1<<20), 1<<24)
 	var cur []action
